@@ -756,7 +756,9 @@ def rule_fresh_pipeline(cm, rep, rid):
                                                   and s.value.func.id.startswith('prolog')):
             if isinstance(s.targets[0], ast.Name):
                 ctor_locals[s.targets[0].id] = s
-    rep.minimum('pipeline objects constructed per call', len(ctor_locals), 5)
+    n_ctor = len([x for x in own_nodes(f.node) if isinstance(x, ast.Call) and isinstance(x.func, ast.Name) and
+                  (x.func.id[:1].isupper() or x.func.id.startswith('prolog'))])
+    rep.minimum('pipeline objects constructed per call', n_ctor, 5)
     for name, s in sorted(ctor_locals.items()):
         esc = None
         for x in own_nodes_ordered(f.node):
@@ -809,57 +811,79 @@ def rule_fresh_pipeline(cm, rep, rid):
 
 def rule_same_path(cm, em, rep, rid):
     rep.rule(rid, 'main(), compile_prolog_from_string and compile_prolog_from_file all produce code through the one pipeline '
-                  'function; main() writes exactly that call\'s result, per source, inside the loop over the sources in order')
-    pipe = rf_pipeline(cm)
+                  'function (call graph inside the compiler module; nothing on the way builds a visitor, compiler or emitter of '
+                  'its own); main() writes exactly that call\'s result, per source, inside the loop over the sources in order')
+    from .rules_front import pipeline_function
+    pview = pipeline_function(em)[0]
+    pipe = pview.origin
     comp = cm.repo.module('compiler')
-    n = 0
+    stage = ('YPPythonCodeGenerator', 'YPPrologCompiler', 'YPPrologVisitor')
+
+    def reach_avoiding(f, avoid):
+        out, stack = [], [f]
+        while stack:
+            g = stack.pop()
+            if g in out or g is avoid:
+                continue
+            out.append(g)
+            for n, cs in em.cg.calls.get(g, ()):
+                stack.extend(c for c in cs if c.module is comp and c.cls is None)
+        return out
     for name in ('main', 'compile_prolog_from_string', 'compile_prolog_from_file'):
         f = comp.functions.get(name)
         if f is None:
             raise AnalysisError('anchor vanished: compiler.%s' % name)
-        calls = [c for c, cs in em.cg.calls.get(f, ()) if pipe in cs]
-        if not calls and name == 'main':
-            # through a helper of the compiler module
-            for c, cs in em.cg.calls.get(f, ()):
-                for h in cs:
-                    if h.module.name == 'compiler' and any(pipe in cs2 for _, cs2 in em.cg.calls.get(h, ())):
-                        calls.append(c)
-        other = [c for c, cs in em.cg.calls.get(f, ()) for x in cs if x.cls is not None and x.cls.name in ('YPPythonCodeGenerator', 'YPPrologCompiler', 'YPPrologVisitor')]
+        before = reach_avoiding(f, pipe)            # what runs outside the pipeline call
+        reaches = any(pipe in cs for g in before for _, cs in em.cg.calls.get(g, ())) or f is pipe
+        other = [(g, c) for g in before for c, cs in em.cg.calls.get(g, ()) for x in cs if x.cls is not None and x.cls.name in stage]
         key = 'compiler.%s' % name
-        n += 1
-        if len(calls) == 1 and not other:
-            rep.ok(rid, key, 'reaches the emitter only through %s' % pipe.name, f.loc(calls[0]))
+        if reaches and not other:
+            rep.ok(rid, key, 'reaches the emitter only through %s' % pipe.name, f.loc())
         else:
-            rep.violation(rid, key, '%s does not compile through the shared pipeline function (%d call(s), %d direct use(s) of '
-                          'pipeline classes): command line and library can differ' % (name, len(calls), len(other)), f.loc())
-    main = comp.functions['main']
+            rep.violation(rid, key, '%s does not compile through the shared pipeline function %s (%s, %d use(s) of visitor/compiler/emitter '
+                          'classes outside it): command line and library can differ' % (name, pipe.name, 'reached' if reaches else 'not reached', len(other)), f.loc())
+    main0 = comp.functions['main']
+    main = em.view(main0, keep=(pipe,))      # helpers of main pasted in, the pipeline call kept as a call
     loops = [s for s in own_nodes_ordered(main.node) if isinstance(s, ast.For) and is_name(s.iter, 'source')]
     key = 'compiler.main:write'
     if not loops:
-        rep.violation(rid, key, 'main() does not loop over its sources in the order given', main.loc())
+        rep.violation(rid, key, 'main() does not loop over its sources in the order given', main0.loc())
         return
     loop = loops[0]
-    # the function that holds the pipeline call: main itself, or a helper called once per source inside the loop
-    holder, scope = main, loop
-    call = [c for c in ast.walk(loop) if isinstance(c, ast.Call) and pipe in em.cg.resolve_callable(main, c.func)]
+
+    def is_pipe_call(c):
+        return isinstance(c, ast.Call) and isinstance(c.func, ast.Name) and c.func.id == pipe.name
+    call = [c for c in ast.walk(loop) if is_pipe_call(c)]
     if not call:
+        # the pipeline is reached through a wrapper that could not be pasted in (e.g. one with several returns): accept the
+        # outermost module-level call inside the loop that reaches it
         for c in ast.walk(loop):
-            if isinstance(c, ast.Call):
-                for h in em.cg.resolve_callable(main, c.func):
-                    if h.module.name == 'compiler' and any(pipe in cs for _, cs in em.cg.calls.get(h, ())):
-                        holder, scope = h, h.node
-    call = [c for c in ast.walk(scope) if isinstance(c, ast.Call) and pipe in em.cg.resolve_callable(holder, c.func)]
-    writes = [c for c in ast.walk(scope) if isinstance(c, ast.Call) and isinstance(c.func, ast.Attribute) and c.func.attr == 'write']
+            if isinstance(c, ast.Call) and isinstance(c.func, ast.Name) and c.func.id in comp.functions and \
+                    pipe in reach_avoiding(comp.functions[c.func.id], None):
+                call.append(c)
+    writes = [c for c in ast.walk(loop) if isinstance(c, ast.Call) and isinstance(c.func, ast.Attribute) and c.func.attr == 'write']
     if len(call) == 1 and len(writes) == 1:
         p = getattr(call[0], '_parent', None)
         var = p.targets[0].id if isinstance(p, ast.Assign) and isinstance(p.targets[0], ast.Name) else None
         arg = writes[0].args[0] if writes[0].args else None
-        if (var and is_name(arg, var)) or arg is call[0]:
-            reassigned = [s for s in ast.walk(scope) if isinstance(s, ast.Assign) and any(is_name(t, var) for t in s.targets) and s.value is not call[0]]
+        names = {var}
+        # plain copies of the result (a helper pasted in hands it over through locals)
+        changed = True
+        while changed and var:
+            changed = False
+            for s_ in ast.walk(loop):
+                if isinstance(s_, ast.Assign) and isinstance(s_.value, ast.Name) and s_.value.id in names and len(s_.targets) == 1 and \
+                        isinstance(s_.targets[0], ast.Name) and s_.targets[0].id not in names:
+                    names.add(s_.targets[0].id)
+                    changed = True
+        if (var and isinstance(arg, ast.Name) and arg.id in names) or arg is call[0]:
+            reassigned = [s_ for s_ in ast.walk(loop) if isinstance(s_, ast.Assign) and any(isinstance(t, ast.Name) and t.id in names for t in s_.targets)
+                          and s_.value is not call[0] and not (isinstance(s_.value, ast.Name) and s_.value.id in names)]
             if not reassigned:
-                rep.ok(rid, key, 'writes the unmodified result of the pipeline call, once per source (%s)' % holder.name, holder.loc(writes[0]))
+                rep.ok(rid, key, 'writes the unmodified result of the pipeline call, once per source', main0.loc())
                 return
-    rep.violation(rid, key, 'what the command line writes is not exactly the result of the pipeline call for each source', holder.loc())
+    rep.violation(rid, key, 'what the command line writes is not exactly the result of the pipeline call for each source '
+                  '(%d pipeline call(s), %d write(s) in the loop over the sources)' % (len(call), len(writes)), main0.loc())
 
 
 def rule_comment_safe_writes(cm, rep, rid):
@@ -1110,13 +1134,36 @@ def rule_one_decoding(cm, rep, rid, tier):
                 enc = None
                 for k in x.keywords:
                     if k.arg == 'encoding':
-                        enc = k.value.value if isinstance(k.value, ast.Constant) else norm(k.value)
+                        kv = k.value
+                        if isinstance(kv, ast.Name):
+                            r = cm.repo.resolve_name(f, kv.id)          # a module constant
+                            if r and r[0] == 'var' and isinstance(r[2], ast.Constant) and len(r[1].assign_nodes.get(kv.id, [])) == 1:
+                                kv = r[2]
+                        enc = kv.value if isinstance(kv, ast.Constant) else norm(kv)
                 if enc is None and cls == 'FileStream' and len(x.args) > 1 and isinstance(x.args[1], ast.Constant):
                     enc = x.args[1].value
                 if enc is None and cls == 'StdinStream' and len(x.args) > 0 and isinstance(x.args[0], ast.Constant):
                     enc = x.args[0].value
                 sites.append((f, x, cls, (enc or defaults[cls])))
-    rep.minimum('byte-decoding stream constructors', len(sites), 3)
+    rep.minimum('byte-decoding stream constructors', len(sites), 1)
+    # sources read through Python's text I/O: universal newlines rewrite \r\n and \r, the byte streams do not
+    for f in cm.repo.all_functions(('compiler',)):
+        for x in own_nodes_ordered(f.node):
+            if not isinstance(x, ast.Call):
+                continue
+            fn = norm(x.func)
+            if fn in ('open', 'io.open', 'click.open_file', 'codecs.open'):
+                mode = x.args[1] if len(x.args) > 1 else next((k.value for k in x.keywords if k.arg == 'mode'), None)
+                m = mode.value if isinstance(mode, ast.Constant) and isinstance(mode.value, str) else ('r' if mode is None else None)
+                newline = next((k.value for k in x.keywords if k.arg == 'newline'), None)
+                if m is not None and 'w' not in m and 'a' not in m and 'x' not in m and 'b' not in m and \
+                        not (isinstance(newline, ast.Constant) and newline.value == ''):
+                    rep.violation(rid, '%s:%s' % (f.qname, norm(x)[:50]), 'a source is read through Python text I/O (%s, newline translation on): '
+                                  '\\r\\n and \\r inside quoted atoms reach the lexer as \\n, while the other inputs are decoded byte for byte - '
+                                  'the command line and the library compile the same file to different code' % fn, f.loc(x))
+            if fn in ('sys.stdin.read', 'sys.stdin.readlines'):
+                rep.violation(rid, '%s:%s' % (f.qname, fn), 'standard input is read as text (newline translation, locale encoding) instead of through the '
+                              'byte stream class the other inputs use', f.loc(x))
     encs = {str(e).lower().replace('-', '') for _, _, _, e in sites}
     for f, x, cls, e in sites:
         key = '%s:%s' % (f.qname, norm(x))
